@@ -4,7 +4,7 @@
 //!
 //! std's tables (hashbrown + SipHash + RandomState) are out of CBMC's reach (measured: one lookup in
 //! a one-entry map with a concrete key times out at 900 s). These are *assumed contracts on std made
-//! executable*: association lists of at most TWO entries in named, boxed slots `a` (older) and `b`,
+//! executable*: association lists of at most TWO entries in named, inline slots `a` (older) and `b`,
 //! straight-line code only. Iteration order is slot order (std's is unspecified, so any property that
 //! held only for one order would be a defect of the caller anyway).
 //!
@@ -13,8 +13,12 @@
 #![allow(dead_code)]
 
 pub struct HashMap<K, V> {
-    pub a: Option<Box<(K, V)>>,
-    pub b: Option<Box<(K, V)>>,
+    // INLINE slots: CBMC does not propagate constants through heap objects (a boxed entry made the
+    // stored query's enum discriminants and Vec lengths symbolic, and Core::handle_response then
+    // cloned every variant with symbolic-size allocations: > 28 GB). The owner (Core) is a stack
+    // local in every harness, so inline entries keep their constants.
+    pub a: Option<(K, V)>,
+    pub b: Option<(K, V)>,
 }
 
 impl<K, V> core::fmt::Debug for HashMap<K, V> {
@@ -23,7 +27,7 @@ impl<K, V> core::fmt::Debug for HashMap<K, V> {
     }
 }
 
-fn hit<K: PartialEq, V>(slot: &Option<Box<(K, V)>>, k: &K) -> bool {
+fn hit<K: PartialEq, V>(slot: &Option<(K, V)>, k: &K) -> bool {
     match slot {
         Some(e) => e.0 == *k,
         None => false,
@@ -75,9 +79,9 @@ impl<K: PartialEq, V> HashMap<K, V> {
             return self.b.as_mut().map(|e| core::mem::replace(&mut e.1, v));
         }
         if self.a.is_none() {
-            self.a = Some(Box::new((k, v)));
+            self.a = Some((k, v));
         } else if self.b.is_none() {
-            self.b = Some(Box::new((k, v)));
+            self.b = Some((k, v));
         } else {
             panic!("VERIF-MODEL-BOUND: the HashMap stand-in holds at most 2 entries");
         }
@@ -86,28 +90,28 @@ impl<K: PartialEq, V> HashMap<K, V> {
 
     pub fn remove(&mut self, k: &K) -> Option<V> {
         if hit(&self.a, k) {
-            self.a.take().map(|e| (*e).1)
+            self.a.take().map(|e| e.1)
         } else if hit(&self.b, k) {
-            self.b.take().map(|e| (*e).1)
+            self.b.take().map(|e| e.1)
         } else {
             None
         }
     }
 
     pub fn iter(&self) -> Iter<'_, K, V> {
-        Iter { a: self.a.as_deref(), b: self.b.as_deref() }
+        Iter { a: self.a.as_ref(), b: self.b.as_ref() }
     }
 
     pub fn iter_mut(&mut self) -> IterMut<'_, K, V> {
-        IterMut { a: self.a.as_deref_mut(), b: self.b.as_deref_mut() }
+        IterMut { a: self.a.as_mut(), b: self.b.as_mut() }
     }
 
     pub fn values(&self) -> Values<'_, K, V> {
-        Values { a: self.a.as_deref(), b: self.b.as_deref() }
+        Values { a: self.a.as_ref(), b: self.b.as_ref() }
     }
 
     pub fn values_mut(&mut self) -> ValuesMut<'_, K, V> {
-        ValuesMut { a: self.a.as_deref_mut(), b: self.b.as_deref_mut() }
+        ValuesMut { a: self.a.as_mut(), b: self.b.as_mut() }
     }
 
     pub fn entry(&mut self, k: K) -> Entry<'_, K, V> {
@@ -180,10 +184,10 @@ impl<'a, K: PartialEq, V> Entry<'a, K, V> {
             // cannot return the reference from insert(); look it up again below
             let Entry { map, key } = self;
             if map.a.is_none() {
-                map.a = Some(Box::new((key, default)));
+                map.a = Some((key, default));
                 return map.a.as_mut().map(|e| &mut e.1).unwrap();
             } else if map.b.is_none() {
-                map.b = Some(Box::new((key, default)));
+                map.b = Some((key, default));
                 return map.b.as_mut().map(|e| &mut e.1).unwrap();
             } else {
                 panic!("VERIF-MODEL-BOUND: the HashMap stand-in holds at most 2 entries");
